@@ -4,6 +4,8 @@ CONSTANTS
   NSlices = 1
   WithMarker = FALSE
   Chains = FALSE
+  Ext = FALSE
+  Wiring = FALSE
   FirstFromR2 = FALSE
   FoldTable <- MCFoldTable
   SingularTable <- MCSingular
